@@ -43,6 +43,7 @@ def c11(ctx, rep):
     _r(optable.rule_stack_effect, ctx, rep)
     _r(stack_rules.rule_stack_discipline, ctx, rep)
     _r(optable.rule_int_push_table, ctx, rep)
+    _r(gtxn_tables.rule_index_classification, ctx, rep)
     rep.assume("spec/avm_ops.json is the AVM stack effect of every v1-v8 opcode (hand-reviewed; version/mode cross-checked with PyTeal)")
 
 
@@ -156,6 +157,8 @@ def c03(ctx, rep):
     _r(cmptables.rule_addr_tables, ctx, rep)
     _r(cmptables.rule_int_tables, ctx, rep)
     _r(cmptables.rule_kind_exact_compared, ctx, rep)
+    _r(detectors.rule_checks_field, ctx, rep)
+    _r(spelling.rule_int_spellings, ctx, rep)
     _r(generic_tables.rule_fixpoint_programs, ctx, rep, only=("rekey-to verdict: spurious", "RekeyTo exact", "GroupSize exact", "GroupIndex exact", "Fee exact", "Fee empty", "runs"))
     _r(function_rules.rule_function_construction, ctx, rep)
 
@@ -220,6 +223,9 @@ def c13(ctx, rep):
     _r(detectors.rule_validated_in_block, ctx, rep)
     _r(gtxn_tables.rule_index_classification, ctx, rep)
     _r(gtxn_tables.rule_key_matching, ctx, rep)
+    # the information the verdict reads per route (absolute / relative / at-index context) is the information the analyses stored there
+    _r(cmptables.rule_fee_store, ctx, rep)
+    _r(cmptables.rule_addr_store, ctx, rep)
 
 
 from .rules import cfg_rules  # noqa: E402
